@@ -78,15 +78,17 @@ func refEval(n *xNode, trace *[]string) (interface{}, error) {
 	}
 	if n.op == "!" {
 		v, err := refEval(n.l, trace)
-		if err != nil && err != errUnknownIdent {
+		if err != nil && !(err == errUnknownIdent && n.l.op == "") {
 			return nil, err
 		}
 		return !refTruthy(v), nil
 	}
 	tolerant := n.op == "==" || n.op == "!=" || n.op == "&&" || n.op == "||"
+	// the tolerated fault is an unknown identifier that IS the operand, not one
+	// somewhere inside it
 	lv, err := refEval(n.l, trace)
 	if err != nil {
-		if !(tolerant && err == errUnknownIdent) {
+		if !(tolerant && err == errUnknownIdent && n.l.op == "") {
 			return nil, err
 		}
 		lv = nil
@@ -99,7 +101,7 @@ func refEval(n *xNode, trace *[]string) (interface{}, error) {
 	}
 	rv, err := refEval(n.r, trace)
 	if err != nil {
-		if !(tolerant && err == errUnknownIdent) {
+		if !(tolerant && err == errUnknownIdent && n.r.op == "") {
 			return nil, err
 		}
 		rv = nil
